@@ -212,15 +212,17 @@ class Recorder:
             stopped = kwargs["stopped"]
             rec = self._call_rec(h, kwargs)
             rec["mode"] = mode
-            if self.note_call():
-                await asyncio.sleep(1.0 / 64)
             try:
+                if self.note_call():
+                    await asyncio.sleep(1.0 / 64)
                 if mode == "retry":      # never awaits; asks to be retried after `delay` (TemporaryError)
                     import kopf
                     rec["outcome"] = "retry"
                     raise kopf.TemporaryError("scripted", delay=d.get("delay", 0))
                 if mode == "exit":
                     await asyncio.sleep(after)
+                    for _ in range(int(d.get("lag", 0))):      # a few more zero-time steps before it returns
+                        await asyncio.sleep(0)
                     rec["outcome"] = "own-exit"
                     rec["flag_at_exit"] = bool(stopped)
                     return None
@@ -265,9 +267,9 @@ class Recorder:
             n = self.sim.obs.counters.get(key, 0)
             self.sim.obs.counters[key] = n + 1
             rec["n"] = n
-            if self.note_call():
-                await asyncio.sleep(1.0 / 64)
             try:
+                if self.note_call():
+                    await asyncio.sleep(1.0 / 64)
                 if not h.get("noawait"):
                     await asyncio.sleep(dur)       # an async handler that awaits; with "noawait" the run never yields
                 act = script[n] if n < len(script) else h.get("default", "ok")
@@ -728,12 +730,42 @@ def gen_deletion_scenario(rng: Any, seed: int) -> dict:
             "settings": {}, "flavour": "deletion-poke"}
 
 
+def gen_exit_race_scenario(rng: Any, seed: int) -> dict:
+    """A still-matching daemon exits on its own within the few zero-time loop cycles in which the same processing
+    cycle stops a sibling that has just stopped matching (`_wait_for_instant_exit`): the label edit lands at the
+    very instant the daemon's own sleep ends, and the daemon takes `lag` more zero-time steps to return."""
+    after = rng.choice([0.5, 2.0, 3.0])
+    handlers: list[dict] = [{"kind": "daemon", "id": "d0", "opts": {},
+                             "daemon": {"mode": "exit", "after": after, "lag": rng.choice([2, 4, 6, 8, 10, 12, 14, 16, 20])}}]
+    for k in range(1, rng.choice([2, 2, 3])):
+        opts: dict[str, Any] = {"labels": {"on": "1"}}
+        if rng.random() < 0.5:
+            opts["cancellation_backoff"] = rng.choice([0.5, 1.0])
+        if rng.random() < 0.5:
+            opts["cancellation_timeout"] = rng.choice([1.0, 2.0])
+        handlers.append({"kind": "daemon", "id": f"d{k}", "opts": opts,
+                         "daemon": {"mode": rng.choice(["cancel", "obey", "ignore"]), "after": 2.0}})
+    if rng.random() < 0.3:
+        handlers.append({"kind": "timer", "id": "t9", "opts": {"interval": 1.0, "labels": {"on": "1"}}, "tcfg": "interval"})
+    t = 1.0
+    tl: list[list] = [[t, "create", "a", {"spec": {"x": 0}, "metadata": {"labels": {"on": "1"}}}],
+                      [t + after, "edit", "a", {"metadata": {"labels": {"on": rng.choice(["0", None])}}}]]
+    t += after
+    for n in range(rng.choice([1, 2])):
+        t += rng.choice([0.5, 1.0, 2.0])
+        tl.append([t, "edit", "a", rng.choice([{"spec": {"x": n + 1}}, {"metadata": {"labels": {"on": "1"}}}])])
+    return {"runner": RUNNER, "seed": seed, "handlers": handlers, "timeline": tl, "end": t + rng.choice([3.0, 6.0]),
+            "settings": {}, "flavour": "exit-race"}
+
+
 def gen_scenario(rng: Any, seed: int) -> dict:
     r = rng.random()
     if r < 0.2:
         return gen_pause_scenario(rng, seed)
     if r < 0.3:
         return gen_deletion_scenario(rng, seed)
+    if r < 0.38:
+        return gen_exit_race_scenario(rng, seed)
     handlers: list[dict] = []
     for k in range(rng.choice([1, 1, 2, 2, 3])):
         opts: dict[str, Any] = {}
@@ -1385,7 +1417,8 @@ def oracle(ctx: Ctx, sc: dict, res: dict) -> dict:
             dl_a = tf + period + backoff + timeout + tick
             upto = min(w1, iv["until"] if reason == "OPERATOR_PAUSING" else float("inf"))
             if has_timeout and dl_c < upto and t_end(i) > dl_c:
-                if not any(cn["t"] <= dl_c for cn in i["cancels"]):
+                if not any(cn["t"] <= dl_c for cn in i["cancels"]) and \
+                        not any("DAEMON_ABANDONED" in e["reason"] and e["t"] <= dl_c for e in i["sets"]):
                     fail(f"{i['hid']} (instance {i['sid']}) got {reason} at t={tf} (set by {who}) and kept running, but was not "
                          f"cancelled by t={dl_c} (cancellation_backoff={backoff}, killer period {period}s): {why}",
                          {"site": "daemons.daemon_killer", "shape": "flagged daemon is not cancelled after the backoff", "reason": reason},
@@ -1421,7 +1454,9 @@ def oracle(ctx: Ctx, sc: dict, res: dict) -> dict:
         dl_c = max(td, when + backoff) + DELTA
         dl_a = max(td, when + backoff + timeout) + DELTA
         if listening(i["inc"], td, dl_c) and t_end(i) > dl_c:
-            if not any(cn["t"] <= dl_c for cn in i["cancels"]):
+            # (with a zero or tiny timeout the cancellation stage can be empty: straight to the abandonment)
+            if not any(cn["t"] <= dl_c for cn in i["cancels"]) and \
+                    not any("DAEMON_ABANDONED" in e["reason"] and e["t"] <= dl_c for e in sets):
                 fail(f"{i['hid']} (instance {i['sid']}) was asked to stop at t={td} (object marked for deletion) and kept running, "
                      f"but was not cancelled by t={dl_c} (cancellation_backoff={backoff})",
                      {"site": "daemons.stop_daemons", "shape": "flagged daemon is not cancelled after the backoff", "reason": "RESOURCE_DELETED"},
@@ -1903,8 +1938,9 @@ def run(ctx: Ctx) -> None:
                         out[0][1]["spinning"] and not out[0][1]["settles"], {"scenario": f1, "guarded_in_tree": guarded})
             if out[1][1]["treeGuarded"] != guarded or out[1][1]["treeYielding"] != ctx.extra.get("retry_loops_yield_each_iteration_in_tree"):
                 ctx.notes.append("Model.treeGuarded differs from the tree under test (informative; the theorems cover both variants)")
-                print(f"C09 note: the tree's _timer idle loop is {'guarded' if guarded else 'unguarded'}; "
-                      f"Kopf.C09.treeGuarded = {out[1][1]['treeGuarded']}", file=sys.stderr)
+                print(f"C09 note: tree variant (idle loop guarded={guarded}, retry loops yield="
+                      f"{ctx.extra.get('retry_loops_yield_each_iteration_in_tree')}) differs from the model's constants "
+                      f"(treeGuarded={out[1][1]['treeGuarded']}, treeYielding={out[1][1]['treeYielding']})", file=sys.stderr)
         except leanio.LeanError as e:
             ctx.tie_fail(f"Lean driver failed: {e}", {"log": e.log})
 
